@@ -4,7 +4,7 @@ use crate::desc::Value;
 use crate::glue::{FErr, ReadOut, Route, Shape, ValEmplacer};
 use crate::pipes::*;
 use flatty::traits::FlatBase;
-use flatty_io::{AsyncReceiver, AsyncSender, Receiver, RecvError, Sender};
+use flatty_io::{AsyncReceiver, AsyncSender, IoBuffer, Receiver, RecvError, Sender};
 use std::io::ErrorKind;
 use std::panic::{catch_unwind, AssertUnwindSafe};
 
@@ -66,6 +66,16 @@ thread_local! {
     pub static POST_OPS: std::cell::RefCell<Vec<Vec<(Vec<u16>, crate::glue::Op)>>> = std::cell::RefCell::new(Vec::new());
 }
 
+thread_local! {
+    /// When set, senders / receivers are built with `Sender::new(IoBuffer::new(pipe, capacity, ALIGN))`
+    /// (an explicit buffer capacity) instead of `::io(pipe, max_msg_len)` (which allocates 2 * max_msg_len).
+    pub static IO_CAPACITY: std::cell::Cell<Option<usize>> = std::cell::Cell::new(None);
+}
+
+fn capacity_override() -> Option<usize> {
+    IO_CAPACITY.with(|c| c.get())
+}
+
 fn apply_post_ops<T: Shape + ?Sized>(i: usize, x: &mut T) {
     POST_OPS.with(|p| {
         if let Some(ops) = p.borrow().get(i) {
@@ -108,7 +118,10 @@ pub fn send_blocking<T: Shape + ?Sized>(msgs: &[Value], routes: &[u8], max_msg_l
     let mut out = Vec::new();
     let mut lens = Vec::new();
     let sink_ptr: *const ScriptSink = sink;
-    let mut sender = Sender::<T, _>::io(&mut *sink, max_msg_len);
+    let mut sender = match capacity_override() {
+        Some(cap) => Sender::<T, _>::new(IoBuffer::new(&mut *sink, cap, T::ALIGN)),
+        None => Sender::<T, _>::io(&mut *sink, max_msg_len),
+    };
     for (i, m) in msgs.iter().enumerate() {
         let route = Route::new(&[routes.get(i).copied().unwrap_or(0)]);
         let r = catch_unwind(AssertUnwindSafe(|| -> SendRes {
@@ -150,7 +163,10 @@ pub fn recv_blocking<T: Shape + ?Sized>(source: &mut ScriptSource, max_msg_len: 
     let mut out = Vec::new();
     let mut dl = Vec::new();
     let src_ptr: *const ScriptSource = source;
-    let mut receiver = Receiver::<T, _>::io(&mut *source, max_msg_len);
+    let mut receiver = match capacity_override() {
+        Some(cap) => Receiver::<T, _>::new(IoBuffer::new(&mut *source, cap, T::ALIGN)),
+        None => Receiver::<T, _>::io(&mut *source, max_msg_len),
+    };
     let mut retries_left = retries;
     while out.len() < max_events {
         let r = catch_unwind(AssertUnwindSafe(|| -> (RecvRes, bool) {
@@ -218,7 +234,10 @@ pub fn async_send<T: Shape + ?Sized>(msgs: &[Value], routes: &[u8], max_msg_len:
     let mut lens = Vec::new();
     let mut stalled = false;
     let sink_ptr: *const ScriptSink = sink;
-    let mut sender = AsyncSender::<T, _>::io(&mut *sink, max_msg_len);
+    let mut sender = match capacity_override() {
+        Some(cap) => AsyncSender::<T, _>::new(IoBuffer::new(&mut *sink, cap, T::ALIGN)),
+        None => AsyncSender::<T, _>::io(&mut *sink, max_msg_len),
+    };
     for (i, m) in msgs.iter().enumerate() {
         let route = Route::new(&[routes.get(i).copied().unwrap_or(0)]);
         let r = catch_unwind(AssertUnwindSafe(|| {
@@ -276,7 +295,10 @@ pub fn async_recv<T: Shape + ?Sized>(source: &mut ScriptSource, max_msg_len: usi
     let mut out = Vec::new();
     let mut dl = Vec::new();
     let src_ptr: *const ScriptSource = source;
-    let mut receiver = AsyncReceiver::<T, _>::io(&mut *source, max_msg_len);
+    let mut receiver = match capacity_override() {
+        Some(cap) => AsyncReceiver::<T, _>::new(IoBuffer::new(&mut *source, cap, T::ALIGN)),
+        None => AsyncReceiver::<T, _>::io(&mut *source, max_msg_len),
+    };
     let mut retries_left = retries;
     let mut polls = 0;
     while out.len() < max_events {
@@ -375,7 +397,10 @@ pub fn async_joined<T: Shape + ?Sized>(
     let r = catch_unwind(AssertUnwindSafe(|| {
         let closer = wend.clone();
         let sender_task = async {
-            let mut sender = AsyncSender::<T, _>::io(wend, max_msg_len);
+            let mut sender = match capacity_override() {
+                Some(cap) => AsyncSender::<T, _>::new(IoBuffer::new(wend, cap, T::ALIGN)),
+                None => AsyncSender::<T, _>::io(wend, max_msg_len),
+            };
             for (i, m) in msgs.iter().enumerate() {
                 let route = Route::new(&[routes.get(i).copied().unwrap_or(0)]);
                 let res = async {
@@ -403,7 +428,10 @@ pub fn async_joined<T: Shape + ?Sized>(
             closer.close();
         };
         let receiver_task = async {
-            let mut receiver = AsyncReceiver::<T, _>::io(rend, max_msg_len);
+            let mut receiver = match capacity_override() {
+                Some(cap) => AsyncReceiver::<T, _>::new(IoBuffer::new(rend, cap, T::ALIGN)),
+                None => AsyncReceiver::<T, _>::io(rend, max_msg_len),
+            };
             while recvs.borrow().len() < max_events {
                 match receiver.recv().await {
                     Ok(guard) => {
